@@ -98,7 +98,11 @@ def cases(tier, cfg):
                             out.append(Case(f"C17/tmatmul[{t}|M={M},K={K},N={N},lhs={TAGS[l]},rhs={TAGS[r]},arg={an}]",
                                             f"c17::tmm_e<{CTYPE[t]},{M},{K},{N},{l},{r},{arg}>(fx);", route=f"expr.{an}.{TAGS[l]}{TAGS[r]}",
                                             cost=0.15 + (0.3 if cfg.san else 0)))
-    return out
+    seen, uniq = set(), []
+    for c in out:          # the size / shape lists overlap for the narrow vector widths: one case per identity
+        if c.id not in seen:
+            seen.add(c.id); uniq.append(c)
+    return uniq
 
 
 def bounds(tier):
